@@ -35,6 +35,7 @@ Proof.
   destruct (s_fileid s); [cbn; split; [exact Hi|apply after_refl]|].
   destruct (peekfileid_bounded && (h_datasize (s_header s) <=? s_cur s)); [exact I|].
   eapply post_bind; [apply decode_message_post; exact Hi|]. intros s1 [Hi1 Ha1].
+  destruct (peekfileid_checks_overrun && (h_datasize (s_header s1) <? s_cur s1)); [exact I|].
   eapply post_weaken; [apply IH; [exact Hi1|unfold after in Ha1; lia]|].
   intros s2 [Hi2 Ha2]. split; [exact Hi2|]. eapply after_weaken; [|exact (after_trans _ _ _ _ _ Ha1 Ha2)]. lia.
 Qed.
@@ -120,7 +121,8 @@ Proof.
         destruct (peekfileid_bounded && _); discriminate.
       - destruct (s_fileid s) eqn:E; [intros H; injection H as <-; congruence|].
         destruct (peekfileid_bounded && _); [discriminate|].
-        unfold bind. destruct (decode_message (a_cfg a) s); try discriminate. apply IH. }
+        unfold bind. destruct (decode_message (a_cfg a) s) as [s1'| | |]; try discriminate.
+        destruct (peekfileid_checks_overrun && _); [discriminate|]. apply IH. }
     destruct (s_fileid s2); [|contradiction]. (split; [split; discriminate|]). exact Hi2.
   - (* Discard *)
     destruct (a_err a); [cbn; (split; [split; discriminate|]); exact Hi|].
